@@ -272,6 +272,15 @@ theorem dangling_resolves (l : Tree) (dot : Tok) (e : List Tok) (path : List Nat
   · simp [isDot, binNode, mk, Tree.kind, Tree.attrs, hd, Kind.name]
   · rfl
 
+/-- **dot_node_resolves**: when the position lies on a dot node itself (no operand touches it: the right operand
+    starts on a later line, or there is an empty line in between), `generate_for_node` answers "after the dot" exactly
+    when the position is at or behind the end of the operator token — in particular right behind the dot -/
+theorem dot_node_resolves (file : Nat) (stem : String) (root : Tree) (p : Pos) (node : Tree) (opr : Range)
+    (hn : nodeAt root (encasing p [] root) = some node) (hd : isDot node = true)
+    (ho : (attrVal node "oprng").bind decRng = some opr) :
+    (compOcc file stem root p).ctx = if opr.e.le p then .rhs (exOfTree (node.nth 0)) else .lhs := by
+  simp only [compOcc, hn, Option.getD_some, hd, if_true, ho]
+
 /-! ## non-vacuity and end-to-end samples (kernel-evaluated on the parser model) -/
 
 def tk (k : Kind) (v : String) (l c : Nat) : Tok := ⟨k, v, ⟨⟨l, c⟩, ⟨l, c + v.length⟩⟩⟩
@@ -284,6 +293,36 @@ example : (compOcc 0 "f" (parseGold [tk .Proc "proc" 0 0, tk .Identifier "P" 0 5
 example : (compOcc 0 "f" (parseGold [tk .Proc "proc" 0 0, tk .Identifier "P" 0 5, tk .Identifier "x" 1 3,
     tk .Dot "." 1 4, tk .Identifier "y" 1 5, tk .Dot "." 1 6, tk .Exit "exit" 2 3, tk .EndProc "endproc" 3 0]).1 ⟨1, 7⟩).ctx
     = .rhs (.dot (.term "x") (.term "y")) := by decide
+
+/-- `proc P ⏎ x. ⏎ y = 1 ⏎ endproc`: the next line starts with an identifier, which IS the right operand (`x.y = 1`) -/
+def toksXY : List Tok := [tk .Proc "proc" 0 0, tk .Identifier "P" 0 5, tk .Identifier "x" 1 3,
+    tk .Dot "." 1 4, tk .Identifier "y" 2 3, tk .Equals "=" 2 5, tk .NumericLiteral "1" 2 7, tk .EndProc "endproc" 3 0]
+
+/-- right behind that dot no operand touches the position: the encasing node is the dot node itself, its operator
+    token ends exactly there (`1:5`), its left operand is `x` — `dot_node_resolves` then gives "after the dot of `x`"
+    because `opr.e.le p` (the `>=` of `generate_for_node`; with `>` this position would be a statement start) -/
+example : let t := (parseGold toksXY).1
+    let n := nodeAt t (encasing ⟨1, 5⟩ [] t)
+    n.map isDot = some true ∧ n.bind (attrVal · "oprng") = some "1:4-1:5" ∧ n.map (fun d => exOfTree (d.nth 0)) = some (.term "x") := by
+  decide
+
+/-- the start of the next line is the start of the member name after the dot -/
+example : (compOcc 0 "f" (parseGold toksXY).1 ⟨2, 3⟩).ctx = .rhs (.term "x") := by decide
+
+/-- a method without a body (`proc Beep(pFreq : int4) external 'lib'`) is a method with an empty body: it opens a scope
+    of its own, so its parameter is offered at a statement start of NO other method, and it is a member after `self.` -/
+def blA : Entity :=
+  { stem := "aA", top := [.cls { uid := 1, id := "aA", kind := .cls } none,
+                          .decl { uid := 2, id := "cOwn", kind := .const, ty := .lit }],
+    methods := [{ decl := { uid := 3, id := "Beep", kind := .proc },
+                  params := [{ uid := 4, id := "pFreq", kind := .var, ty := .basic "int4" }] },
+                { decl := { uid := 5, id := "Run", kind := .proc },
+                  params := [{ uid := 6, id := "pArg", kind := .var, ty := .basic "int4" }] }] }
+
+example : WellFormedWs Gold.Sym.asciiUpper [blA] := by decide
+example : completion Gold.Sym.asciiUpper [blA] ⟨"aA", some 1, 5, .lhs⟩ = ["pArg", "cOwn"] := by decide
+example : completion Gold.Sym.asciiUpper [blA] ⟨"aA", some 0, 5, .lhs⟩ = ["pFreq", "cOwn"] := by decide
+example : completion Gold.Sym.asciiUpper [blA] ⟨"aA", some 1, 5, .rhs (.term "self")⟩ = ["Beep", "Run"] := by decide
 
 /-- the hypotheses of `dangling_parse` are met by `x .` at the end of a slice: `x` parses as an
     operand leaving the dot, nothing parses after it, the tail after it is empty -/
